@@ -74,4 +74,16 @@ def readLines (d : HDecl) (hs : List Str) : Except RErr HVal :=
         | none => .error .parse
       | _ :: _ => .error .multiple
 
+/-! ### the whole header block: `w.Header().Add(key, line)` for every declared header in turn,
+    `resp.Header.Values(key)` per declared header at the client (keys canonical) -/
+
+/-- the field lines of a response, in the order written: (canonical key, text) -/
+def writeAll : List (String × HVal) → List (String × Str)
+  | [] => []
+  | (k, v) :: rest => (writeLines v).map (fun l => (k, l)) ++ writeAll rest
+
+/-- `http.Header.Values(key)` -/
+def valuesOf (key : String) (lines : List (String × Str)) : List Str :=
+  (lines.filter (fun kl => kl.1 == key)).map (·.2)
+
 end Goag.RespHdr
